@@ -179,18 +179,41 @@ func TestC11Rapid(t *testing.T) {
 	runRapid(t, 250, 6000, func(rt *rapid.T) {
 		c := rec.Begin()
 		w := newL1World(rt, l1Cfg{weights: c11Weights, maxBridges: 3, badCfgProb: 0,
-			periods: []time.Duration{time.Second, 10 * time.Second, time.Minute}, offsets: []time.Duration{-time.Second, -time.Nanosecond, 0, time.Nanosecond, time.Second, 2 * time.Second}})
+			periods: []time.Duration{time.Second, 10 * time.Second, time.Minute, 500 * time.Millisecond, time.Nanosecond}, offsets: []time.Duration{-time.Second, -time.Nanosecond, 0, time.Nanosecond, time.Second, 2 * time.Second}})
 		w.opCreate(rt, true)
 		shape := ""
 		midDelete := false
+		bulkAt := -1
+		if rapid.IntRange(0, 24).Draw(rt, "bulk") == 0 {
+			bulkAt = rapid.IntRange(0, 25).Draw(rt, "bulkAt")
+		}
 		repeatSteps(rt, 50, func(i int) {
+			if i == bulkAt && len(w.ids) > 0 {
+				// a bridge whose log is far longer than one page of a paginated read
+				w.bulkPropose(rt, w.bridges[w.ids[0]], rapid.IntRange(101, 140).Draw(rt, "bulkN"))
+				c.Class("bridge-with-more-than-100-outputs")
+				if err := c11Log(w); err != nil {
+					rt.Fatalf("C11 violated after the bulk proposals: %v\nhistory:\n%s", err, w.history())
+				}
+			}
 			pres := w.c11Pre()
 			digest := w.e.Digest()
 			others := map[uint64]string{}
 			for _, id := range w.ids {
 				others[id] = w.e.BridgeDigest(id, nil)
 			}
+			// what the chain itself calls final before the step (same block time as a delete inside the step)
+			observedFinal := map[uint64]uint64{}
+			for _, id := range w.ids {
+				if lf, err := w.e.Q.LastFinalizedOutput(w.e.Ctx, &ophosttypes.QueryLastFinalizedOutputRequest{BridgeId: id}); err == nil {
+					observedFinal[id] = lf.OutputIndex
+				}
+			}
+			timeBefore := w.e.Ctx.BlockTime()
 			st := w.step(rt)
+			if st.Kind == "delete" && st.Res.OK() && w.e.Ctx.BlockTime().Equal(timeBefore) && st.OutIndex >= 1 && st.OutIndex <= observedFinal[st.Bridge] {
+				rt.Fatalf("C11 violated at step %d: output %d of bridge %d was deleted at a block time at which Query/LastFinalizedOutput named index %d as final\nhistory:\n%s", i, st.OutIndex, st.Bridge, observedFinal[st.Bridge], w.history())
+			}
 			pre := pres[st.Bridge]
 			if st.Kind == "delete" && st.Out != nil {
 				pre.must, pre.may = false, false
